@@ -32,6 +32,9 @@ impl Tricky { pub const fn default() -> Self { Tricky(9) } }
 impl Default for Tricky { fn default() -> Self { Tricky(0) } }
 pub fn dw_tricky() -> Tricky { Tricky(5) }
 #[derive(Debug, Clone, PartialEq)]
+pub struct PanicDefault(pub u8);
+impl Default for PanicDefault { fn default() -> Self { panic!() } }
+#[derive(Debug, Clone, PartialEq)]
 pub struct UserErr(pub Buf);
 pub fn user_err(s: &str) -> UserErr { UserErr(Buf::from(s)) }
 '''
@@ -145,7 +148,8 @@ def source(E, derives, std, cfg):
 
 def disc_enum(E, strum_path):
     decl, inst, where = RG.DGEN[E["dgen"]]
-    lines = ["#[derive(Debug, Clone, PartialEq, %s::EnumDiscriminants)]" % strum_path] + ["#[repr(%s)]" % r for r in E["reprs"]]
+    lines = (["use %s::{EnumCount, FromRepr};" % strum_path] if E["id"] % 4 == 0 else []) + \
+            ["#[derive(Debug, Clone, PartialEq, %s::EnumDiscriminants)]" % strum_path] + ["#[repr(%s)]" % r for r in E["reprs"]]
     items = []
     if E["dname"]:
         items.append("name(%s)" % E["dname"])
@@ -153,6 +157,10 @@ def disc_enum(E, strum_path):
         items.append("vis(%s)" % E["dvis"])
     if E["id"] % 2:
         items.append("derive(Hash, PartialOrd)")          # only non-strum derives on the generated enum
+    elif E["id"] % 4 == 0:
+        items.append("derive(EnumCount, FromRepr)")        # strum's own derives by bare name, imported below from the configured path
+        if E.get("crate", "none") != "none":
+            items.append('strum(crate = "%s")' % E["crate"])   # the generated enum is a derive input of its own: it needs the path too
     if items:
         lines.append("#[strum_discriminants(%s)]" % ", ".join(items))
     if E.get("crate", "none") != "none":
